@@ -18,9 +18,10 @@ import vlib
 
 PAIRS = ["tworeg", "samereg", "samerepo", "reg2dir", "dir2reg", "dir2dir"]
 REG_TARGET = ["tworeg", "samereg", "samerepo", "dir2reg"]
-INDEX_SHAPES = ["idx2", "nested", "docker", "artidx", "bentry", "sha512", "dupentry", "diamond"]
+INDEX_SHAPES = ["idx2", "nested", "docker", "artidx", "bentry", "sha512", "dupentry", "diamond", "sigloop"]
+LOOP_SHAPES = ["sigloop"]     # graphs with a loop that runs through an index entry (deferred to finalFn by the code)
 REF_SHAPES = ["art", "artidx", "artshare", "sha512"]
-DTAG_SHAPES = ["dtag", "loop", "art"]
+DTAG_SHAPES = ["dtag", "loop", "art", "sigloop"]
 AT_SBOM = "application/vnd.zzverif.sbom.v1"
 AT_SIG = "application/vnd.zzverif.sig.v1"
 
@@ -84,9 +85,25 @@ class Engine:
             if s["prior"] and self.rng.random() < 0.7:
                 s["cache"] = 1
         s["listorder"] = self.rng.choice(["", "", "rev", "ins", "rand"])
+        # host configuration: an (empty) mirror named for the target / source registry; a source that has the
+        # referrers API and left-over sha256-<hex> tags (only with a target that has the API: otherwise the client's
+        # own fall-back listing and the copied tag compete for the same name)
+        s["mirror"] = self.rng.choice(["", "", "", "tgt", "src", "both"])
+        if self.rng.random() < 0.25:
+            s["leftover"] = 1
+        # a client that made the same copy before, after which content vanished from the target (cache off: a
+        # cached client trusts its cache by design)
+        if pair != "samerepo" and self.rng.random() < 0.12:
+            s.update(prior="recopy", wipe=self.rng.choice(["all", "blobs"]), cache=0)
         s.update(kw)
+        if s.get("leftover") and not (s.get("refapi_src") and s.get("refapi_tgt")):
+            s["leftover"] = 0
+        if s.get("prior") == "recopy":
+            s["cache"] = 0
         if s["mode"] == "script":
-            s["prior"] = ""
+            s.update(prior="", mirror="", wipe="")
+            if s.get("leftover") and not (kw.get("leftover")):
+                s["leftover"] = 0
             # (D) has one request per upload / listing and no cache: keep its scripts exact
             s.update(cache=0, chunked=0, pagesize=0)
         return s
@@ -139,7 +156,7 @@ class Engine:
             out += [{"dtags": 1}, {"dtags": 1, "force": 1}]
         if shape == "art":
             out.append({"dtags": 1, "referrers": 1})
-        if shape == "ext":
+        if shape in ("ext", "foreign"):
             out += [{"inclext": 1}, {"inclext": 1, "force": 1}]
         out.append({"fast": 1})
         return out
@@ -293,6 +310,28 @@ class Engine:
                                         tag0=self.rng.choice(["none", "stale"]), bydigest=self.rng.choice([0, 0, 1])))
         return out
 
+    def round4(self, origin):
+        """Explicit members of the round-4 dimensions (they are also drawn at random everywhere)."""
+        out = []
+        for pr in ("tworeg", "samereg", "reg2dir", "dir2reg", "dir2dir"):
+            for opts in ({"dtags": 1}, {"dtags": 1, "referrers": 1}, {"dtags": 1, "force": 1}):
+                out.append(self.scn("sigloop", pr, origin, opts=dict(opts), leftover=0, prior=""))
+            for opts in ({}, {"inclext": 1}):
+                out.append(self.scn("foreign", pr, origin, opts=dict(opts), extup=self.rng.choice([0, 1]), prior=""))
+        for sh in ("art", "artidx", "artshare"):
+            for pr in ("tworeg", "samereg", "reg2dir"):
+                for opts in ({"dtags": 1, "referrers": 1}, {"dtags": 1}, {"referrers": 1}):
+                    out.append(self.scn(sh, pr, origin, opts=dict(opts), leftover=1, refapi_src=1, refapi_tgt=1, prior=""))
+        for sh in ("img", "idx2", "dup", "docker"):
+            blobs = [n["name"] for n in self.cat[sh]["nodes"] if n["kind"] == "blob"]
+            for pr in ("tworeg", "samereg", "reg2dir", "dir2reg", "dir2dir"):
+                for wipe in ("all", "blobs"):
+                    out.append(self.scn(sh, pr, origin, prior="recopy", wipe=wipe, cache=0))
+            for pr in ("tworeg", "samereg", "reg2dir"):
+                for mir in ("tgt", "src", "both"):
+                    out.append(self.scn(sh, pr, origin, mirror=mir, init=sorted(blobs[::2]), prior=""))
+        return out
+
     def rewinds(self, base_pairs, origin, kinds=("404", "401", "503")):
         """The double fault on one blob: the closing upload PUT at the target fails without retry and the
         rewind of the source (its second GET) fails too."""
@@ -326,6 +365,8 @@ class Engine:
             sc = t["scenario"]
             ob = (r["detail"] or r["reason"]).strip('"')
             sig = "copy:%s:%s:%s" % (ob, "layout" if sc["pair"] in ("reg2dir", "dir2dir") else "registry", cause_of(sc))
+            if sc["shape"] in LOOP_SHAPES:
+                sig += ":loopgraph"
             if ob == "C04:child-missing":
                 sig += ":" + missing_class(t["events"], r["line"], sc)
             what = "%s at event %s of trace %s (shape %s, %s, opts %s, init %s, tag0 %s, mode %s, faults %s%s%s)" % (
@@ -617,6 +658,8 @@ def conf_to_scn(engine, c, steps, origin):
     if c.get("refTgt"):
         opts["reftgt"] = 1
     extra = {}
+    if c.get("leftover"):
+        extra["leftover"] = 1
     if c.get("decline"):
         # (D): the registry declines the mount of the first object of the shape
         extra["mount_decline_n"] = [engine.cat[c["shape"]]["nodes"][0]["name"]]
